@@ -89,6 +89,7 @@ func runC02(o *cli.Opts, run *evid.Run) {
 		s := indexStrategies(d+1, ref.R)
 		s = append(s, skipForgeries(d, ref.R)...)
 		s = append(s, invZeroStrategies(ref.R, o.Seed)...)
+		s = append(s, aliasStrategies(ref.R)...)
 		return s
 	}
 	cli.ForEach(len(dims), 6, func(di int) {
